@@ -230,3 +230,39 @@ valid_non_edges = FunctionContract(
             ("if from_node not in link:\n            continue", "if from_node not in link:\n            return False")],
 )
 CONTRACTS.append(valid_non_edges)
+
+
+# ------------------------------------------------------------------ attributes_match: molecule atom against link template
+AKeyN, AVal = TKey('AttrName'), TKey('AttrVal')
+FM = 'vermouth/molecule.py'
+
+
+def setup_am(cx):
+    eng = cx.eng
+    is_pred = cx.uf('is_pred', [AVal], TBool)                           # isinstance(value, LinkPredicate)
+    pmatch = cx.uf('pred_match', [AVal, TMap(AKeyN, AVal), AKeyN], TBool)   # value.match(attributes, attr)
+    attrs = cx.val('attributes', TMap(AKeyN, AVal))
+    cx.spec_env['isinstance'] = Builtin(lambda e, v, cls: wrap(TBool, is_pred(to_z3(v, AVal))), 'isinstance')
+    cx.spec_env['LinkPredicate'] = Obj('LinkPredicate')
+    eng.methods[('AttrVal', 'match')] = lambda e, v, a, k: wrap(TBool, pmatch(to_z3(v, AVal), to_z3(a, TMap(AKeyN, AVal)), to_z3(k, AKeyN)))
+    ign = cx.val('ignored', TSet(AKeyN))
+    return dict(attributes=attrs, template_attributes=cx.val('template_attributes', TMap(AKeyN, AVal)), ignore_keys=ign)
+
+
+attributes_match = FunctionContract(
+    FM, 'attributes_match', 'C05', setup=setup_am, spec_env=dict(AttrName=AKeyN, AttrVal=AVal),
+    spec_defs={'ok': "lambda a: a in ignore_keys or (a in attributes and attributes[a] == template_attributes[a]) or "
+                     "(is_pred(template_attributes[a]) and pred_match(template_attributes[a], attributes, a))"},
+    ghost_at={'entry': "g_bad = keyat(template_attributes, 0)", 'before:stmt:return False': "g_bad = attr"},
+    locals=dict(g_bad=AKeyN),
+    ensures=[
+        # the atom matches the template exactly when every template attribute that is not ignored is equal to the atom's, or
+        # is a predicate that accepts the atom
+        "implies(result, forall(lambda a: implies(a in template_attributes, ok(a)), AttrName))",
+        "implies(not result, g_bad in template_attributes and not ok(g_bad))",
+    ],
+    loops={'L1': LoopSpec(inv=["forall(lambda a: implies(a in template_attributes and posof(template_attributes, a) < _i, ok(a)), AttrName)"])},
+    canary=[("if attr in ignore_keys:\n            continue", "if attr in ignore_keys:\n            return False"),
+            ("if attributes.get(attr) != value:", "if attributes.get(attr) == value:")],
+)
+CONTRACTS.append(attributes_match)
